@@ -4,7 +4,7 @@
 From Coq Require Import List Arith.
 Import ListNotations.
 Require Import S.Slots S.RopePhys S.SlotsIter S.SlotsIterPhys S.RopeGen.
-Require Export Gen.ConstsRope.
+Require Export Gen.ConstsRope Gen.ConstsSlotsIter.
 
 Section I.
 Context {T: Type}.
